@@ -259,6 +259,65 @@ CreateArgs(S, op) == [c |-> op.c, p |-> DefaultProps(op.c, op.atom), k |-> KidsV
                       unique |-> op.mode = "unique", detached |-> op.mode = "detached"]
 CreateKey(S, op) == LET a == CreateArgs(S, op) IN IdKeyStr(S, a.c, a.o, a.p, a.k)
 
+(* -------- ASTTransformer.execute -------- *)
+(* The traversal order is fixed before the first transformation: legacy dfs(bottom_up=True) builds its whole yield
+   queue first (post-order, children left to right).  The user's transform() is the rule of the programs: it acts on
+   leaf-like nodes whose property a is `atom`:  keep | bump: node.replace(a = atom + 1 mod 3) | fresh: a newly built
+   attached LLeaf(a = 2) | drop: None.  A refused replace_with surfaces as ASTTransformError; what was replaced before
+   stays (named deviation transformer-partial-effects). *)
+RECURSIVE PostOrder(_, _, _)
+PostOrder(S, n, fuel) ==
+    IF fuel = 0 THEN <<>>
+    ELSE LET ks == KidsOf(S, n) IN Flatten([j \in 1..Len(ks) |-> PostOrder(S, ks[j].n, fuel - 1)]) \o <<n>>
+
+LeafLikeC == {"LLeaf", "LSub"}
+Selected(S, x, atom) == S.obj[x].c \in LeafLikeC /\ S.obj[x].p["a"] = atom
+(* the name a node created for position `x` of the receiver's tree gets: the first path (depth first, declaration
+   order) from the returned node, as the harness names what it finds below a returned node; "" if x is not below cur *)
+RECURSIVE FindPath(_, _, _, _, _), FindIn(_, _, _, _, _, _)
+FindPath(S, cur, curname, x, fuel) ==
+    IF cur = x THEN curname
+    ELSE IF fuel = 0 THEN ""
+    ELSE FindIn(S, KidsOf(S, cur), 1, curname, x, fuel)
+FindIn(S, ks, j, curname, x, fuel) ==
+    IF j > Len(ks) THEN ""
+    ELSE LET r == FindPath(S, ks[j].n, KidName(curname, ks[j].f, ks[j].i), x, fuel - 1) IN
+         IF r # "" THEN r ELSE FindIn(S, ks, j + 1, curname, x, fuel)
+PathName(S, root, x, nm, fuel) == FindPath(S, root, nm, x, fuel)
+
+(* one step of the user's rule on node x; result [S, new, err] *)
+Act(S, root, x, rule, atom, nm, d) ==
+    IF ~Selected(S, x, atom) \/ rule = "keep" THEN [S |-> S, new |-> x, err |-> "", partial |-> FALSE]
+    ELSE IF rule = "drop" THEN [S |-> S, new |-> None, err |-> "", partial |-> FALSE]
+    ELSE LET newname == PathName(S, root, x, nm, Fuel(S)) IN
+         IF rule = "bump"
+         THEN LET r == Replace(S, x, [bad |-> FALSE, p |-> [S.obj[x].p EXCEPT !["a"] = (atom + 1) % 3], k |-> S.obj[x].k], newname)
+              IN [S |-> r.S, new |-> IF r.err = "" THEN newname ELSE None, err |-> r.err, partial |-> r.partial]
+         ELSE LET r == Construct(S, newname, [c |-> "LLeaf", p |-> DefaultProps("LLeaf", 2), k |-> <<>>, o |-> 0, id |-> "",
+                                               unique |-> FALSE, detached |-> FALSE], d)
+              IN [S |-> r.S, new |-> IF r.err = "" THEN newname ELSE None, err |-> r.err, partial |-> r.partial]
+
+RECURSIVE ExecFrom(_, _, _, _, _, _, _, _)
+ExecFrom(S, root, order, j, rule, atom, nm, d) ==      \* result [S, err, partial, ret]
+    IF j > Len(order) THEN [S |-> S, err |-> "", partial |-> FALSE, ret |-> root]
+    ELSE LET x == order[j]
+             a == Act(S, root, x, rule, atom, nm, d)
+         IN IF a.err # "" THEN [S |-> a.S, err |-> a.err, partial |-> TRUE, ret |-> None]     \* the rule's own call failed (not wrapped)
+            ELSE IF x = root THEN [S |-> a.S, err |-> "", partial |-> FALSE, ret |-> a.new]     \* the root's result is only returned
+            ELSE IF a.new = x THEN ExecFrom(a.S, root, order, j + 1, rule, atom, nm, d)
+            ELSE IF a.new = None \/ a.S.obj[a.new].id # a.S.obj[x].id
+                 THEN LET r == ReplaceWith(a.S, x, a.new) IN
+                      IF r.err # "" THEN [S |-> r.S, err |-> "ASTTransformError", partial |-> TRUE, ret |-> None]
+                      ELSE ExecFrom(r.S, root, order, j + 1, rule, atom, nm, d)
+                 ELSE ExecFrom(a.S, root, order, j + 1, rule, atom, nm, d)
+
+Texec(S, n, rule, atom, nm, d) ==
+    LET r == ExecFrom(S, n, PostOrder(S, n, Fuel(S)), 1, rule, atom, nm, d)
+        made == {x \in Names(r.S) : x \notin Names(S)}
+        (* nodes built on the way that nothing holds any more are garbage (the registry is weak) *)
+        held == UNION {Reach(r.S.obj, y) : y \in Names(S) \cup (IF r.ret = None THEN {} ELSE {r.ret})}
+    IN [S |-> DropObjs(r.S, made \ held), err |-> r.err, partial |-> r.partial]
+
 Ok(S) == [S |-> S, err |-> "", partial |-> FALSE]
 Apply(S, op, nm, d) ==
     LET a == H(op.a) IN
@@ -275,6 +334,7 @@ Apply(S, op, nm, d) ==
       [] op.op = "replace_with" -> ReplaceWith(S, a, H(op.b))
       [] op.op = "replace_with_none" -> ReplaceWith(S, a, None)
       [] op.op = "duplicate" -> DuplicateOp(S, a, op.mode = "detached", nm)
+      [] op.op = "texec" -> Texec(S, a, op.mode, op.atom, nm, d)
 
 (* the error a rejected operation surfaces with *)
 Outcome(r) == IF r.err = "" THEN "ok" ELSE r.err
